@@ -16,7 +16,7 @@ fn usage() -> ! {
 fn main() {
     let args: Vec<String> = std::env::args().skip(1).collect();
     rs::install_panic_hook();
-    if args.first().map(|s| s.as_str()) != Some("--worker") {
+    if !matches!(args.first().map(|s| s.as_str()), Some("--worker") | Some("--history")) {
         rs::silence_stderr();
     }
     let code = match args.as_slice() {
@@ -51,13 +51,14 @@ fn main() {
             }
             0
         }
+        [h] if h == "--history" => props::c05::main_history(),
         [w, id] if w == "--worker" => props::dispatch(id, props::Mode::Worker),
         [id, r, path] if r == "--replay" => props::dispatch(id, props::Mode::Replay(path.clone())),
         [id, t] if t == "quick" => props::dispatch(id, props::Mode::Check(Tier::Quick)),
         [id, t] if t == "thorough" => props::dispatch(id, props::Mode::Check(Tier::Thorough)),
         _ => usage(),
     };
-    if !matches!(args.first().map(|s| s.as_str()), Some("--worker")) {
+    if !matches!(args.first().map(|s| s.as_str()), Some("--worker") | Some("--history")) {
         let _ = std::fs::remove_dir_all(engine::worker::scratch_dir());
     }
     std::process::exit(code)
